@@ -1054,6 +1054,11 @@ func ruleP06Shape(p *Prog, r *Report) {
 				for _, in := range ins {
 					b, isB := constBool(in)
 					if !isB {
+						// `flag = flag || errs != nil`: the raised value is the nil test of an error list
+						if x, isNil, okN := nilFact(Guard{Cond: in, Pol: true}); okN && !isNil && isSliceOf(x.Type(), "Error") {
+							sawTrue = true
+							continue
+						}
 						okFlag = false
 						continue
 					}
